@@ -20,6 +20,7 @@ HOOKS = {"__getstate__", "__setstate__", "__reduce__", "__reduce_ex__", "__copy_
 
 
 def check(ctx):
+    ctx.rule("R-C15.5", "the generated text depends on the structure of the tree only: the generator keeps no state across visits (object identity, visit history), so eval(repr(ast)) - which unshares nodes - generates the same C")
     ctx.rule("R-C15.1", "repr/eval coupling: __repr__ prints __slots__ minus the k bookkeeping slots as keyword arguments that __init__ accepts; lists print as list displays")
     ctx.rule("R-C15.2", "copy/pickle protocol: module-level slotted classes, Node.__slots__ == (), no custom hooks, __weakref__ last and never assigned; Coord is a module-level plain dataclass")
     mod, models = A.class_models()
@@ -161,6 +162,10 @@ def check(ctx):
             viol("R-C15.2", "Coord", "mutable-default", "mutable default on a Coord field", st, pmod)
     ctx.require_instances("R-C15.1", 49)
     ctx.require_instances("R-C15.2", 100)
+    # ---- R-C15.5: the generator is a function of the tree's structure (no state kept across visits), so a rebuilt copy generates the same text ------
+    from . import share
+    share.borrow(ctx, "C12", ("R-C12.4",), "R-C15.5", count=10)
+
     ctx.info["explanation"] = ("protocol-precondition analysis over all 49 node classes: the slice of __slots__ printed by Node.__repr__ is matched against each "
                                "class's __slots__ and __init__ signature; default slot-based copy/pickle applicability (no hooks, well-formed slots, module-level classes); Coord dataclass shape")
     ctx.trusted += ["CPython ast parser", "builtin repr/eval/pickle/copy implement their documented protocols for slotted classes and dataclasses"]
